@@ -29,6 +29,8 @@ ARGS = [
 STMTS = [
     "def f(a={[1]}, *, password={[1]}): pass\n", "def f(password=b'x', /, token=..., *a, k=ssl.PROTOCOL_SSLv3, **kw): pass\n",
     "try:\n    pass\nexcept (A, B):\n    pass\n", "try:\n    pass\nexcept x.y:\n    continue\n" if False else "for i in x:\n    try:\n        pass\n    except x.y:\n        continue\n",
+    "zz_e = os.environb[b'PATH']\nzz_h = b'\\x89PNG'[0]\nzz_d[b'k'] = 1\nzz_d[b'password'] = b'x'\nzz_d[b'token':b'secret'] = b''\n",
+    "zz_pw = b'hunter2'\nzz_o.password = b'x'\nzz_f(password=b'x', token=bytearray(b'y'))\nzz_pw == b'x'\ndef zz_g(secret=b'z'): pass\n",
     "assert {[1]}\n", "password = {[1]}\n", "a.password = b'x'\n", "d['token'] = 'x'\n", "d[{[1]}] = 'x'\n", "x = d['password': 'y']\n",
     "password == 'a' == 'b'\n", "'password'[0] = 'q'\n", "s = '/tmp/' '0.0.0.0'\n", "lambda password='x': 0\n", "class C:\n    password: str = 'x'\n",
     "async def f():\n    async with a as b:\n        await mark_safe(b)\n", "v = (\n v)\nmark_safe(v)\n" if False else "w = 'x'\nmark_safe(w)\n",
